@@ -74,6 +74,7 @@ class C07(Engine):
                         # repository's samples - not about pool members made by inserting comments or cutting files
                         "family": P.meta[fid]["group"] in ("gen", "corpus", "corpus_headed") or P.meta[fid]["group"].startswith("special_"),
                         "count_known": P.meta[fid].get("nstmts") is not None,
+                        "braces_known": P.meta[fid]["group"] == "gen" or bool(P.meta[fid].get("braces_known")),
                         "ops": [{"op": "api", "file": fid}]}
             idx += 1
         # A2. a stray character sequence at the end of EVERY preprocessor line of every generated program: the lexer drops it
@@ -319,6 +320,20 @@ class C07(Engine):
                         vs.append(Violation(self.prop, "C07.I2-statement-count", "generated file: the number of recognised statements differs from the number emitted",
                                             {"emitted": want, "recognised": len(pops)}))
 
+            if sc.get("braces_known") and o.get("outcome") == "verdict":
+                # brace structure known by construction: right after a `{` at t tabs the scope level is t+1, after a `}` at t tabs it is t
+                lines = file_of(sc, fid)["content"].split("\n")
+                for b in o["pops"]:
+                    if b[6] is None:
+                        continue
+                    ln = b[6][1]
+                    text = lines[ln - 1] if 0 < ln <= len(lines) else ""
+                    st = text.strip()
+                    tabs = len(text) - len(text.lstrip("\t"))
+                    if (st == "{" and b[5] != tabs + 1) or (st.startswith("}") and b[5] != tabs):
+                        vs.append(Violation(self.prop, "C07.I3-depth", f"after the {'opening' if st == '{' else 'closing'} brace of a block nested {tabs} deep the scope is {b[4]} (level {b[5]})",
+                                            {"line": ln, "origin": file_of(sc, fid).get("origin")}))
+                        break
             if sc.get("count_known") and not sc.get("generated") and o.get("outcome") == "verdict":
                 # a generated program with a violation that leaves the segmentation alone: the statement count is still known
                 if sc["nstmts"] != len(o["pops"]):
